@@ -24,6 +24,8 @@ type cfg struct {
 	headerSource HeaderSource
 
 	msg any
+	// source of X-headers for messages that carry none
+	xHeadersReq Request
 
 	cnr cid.ID
 	obj oid.ID
@@ -88,6 +90,8 @@ func (h *headerSource) HeadersOfType(typ eacl.FilterHeaderType) ([]eacl.Header, 
 		if h.requestHeaders == nil {
 			if x, ok := h.cfg.msg.(xHeaderSource); ok {
 				h.requestHeaders = requestHeaders(x)
+			} else if h.cfg.xHeadersReq != nil {
+				h.requestHeaders = requestHeaders(requestXHeaderSource{h.cfg.xHeadersReq})
 			}
 		}
 		return h.requestHeaders, true, nil
